@@ -42,13 +42,27 @@ def gen_rle(ctx):
     py = ast.parse((SRC / "compression" / "rle.py").read_text())
     v = find_assign(py, "MAX_LEN")
     if v is None:
-        raise Infra("rle.py: MAX_LEN not found")
-    max_py = int(_const_eval(v))
+        # the source no longer has the constant: the tie is broken, not the infrastructure.
+        # 0 makes `maxLen_tied` fail, and the correspondence/search then decide.
+        ctx.notes.append("rle.py: MAX_LEN not found (generated as 0)")
+        max_py = 0
+    else:
+        try:
+            max_py = int(_const_eval(v))
+        except Exception:  # noqa
+            ctx.notes.append("rle.py: MAX_LEN is not a constant expression (generated as 0)")
+            max_py = 0
     pyx = (SRC / "compression" / "_rle.pyx").read_text()
     m = re.search(r"cdef\s+unsigned char\s+MAX_LEN\s*=\s*(.+)", pyx)
     if not m:
-        raise Infra("_rle.pyx: MAX_LEN not found")
-    max_pyx = int(_const_eval(ast.parse(m.group(1).strip(), mode="eval").body)) & 0xFF
+        ctx.notes.append("_rle.pyx: MAX_LEN not found (generated as 0)")
+        max_pyx = 0
+    else:
+        try:
+            max_pyx = int(_const_eval(ast.parse(m.group(1).strip(), mode="eval").body)) & 0xFF
+        except Exception:  # noqa
+            ctx.notes.append("_rle.pyx: MAX_LEN is not a constant expression (generated as 0)")
+            max_pyx = 0
     ctx.write_generated(
         "Rle",
         "namespace PsdVerif.Generated.Rle\n"
@@ -65,7 +79,8 @@ def gen_terms(ctx):
     D = importlib.import_module("psd_tools.psd.descriptor")
     terms = getattr(D, "_TERMS", None)
     if terms is None:
-        raise Infra("descriptor._TERMS not found")
+        ctx.notes.append("descriptor._TERMS not found (generated as empty and mutable)")
+        terms = set()
     codes = sorted(int.from_bytes(t, "big") for t in terms if len(t) == 4)
     odd = sorted(t.hex() for t in terms if len(t) != 4)
     rows = ",\n  ".join(", ".join(str(c) for c in codes[i:i + 12]) for i in range(0, len(codes), 12))
